@@ -109,8 +109,8 @@ ADDENDA = {
     "C02": "Added later: the interpreter's own 65536-entry dispatch table must hold the decoder's row for every word; the assembler's word for the printed text may differ from the original only in bits the form declares unused; the generator's own expansion kind; second-word unused bits; loop programs stepped cycle by cycle.",
     "C03": "Added later: the 16-bit movr forms are checked for their overflow flags (their value and carry are a documented quirk compared by C01).",
     "C04": "Added later: product-sum / dual-multiplier forms, normalisation, and the product named as a 16-bit Register operand (movs p, exp p, mpy y0,p) under every product-shift mode.",
-    "C06": "Added later: paused timers, long-horizon family (x40), conditional self-branches, full audio queues.",
-    "C07": "Added later: whole-word status writes, Run(3), a one-shot timer source, vector registers reprogrammed at run time (second handler address, context flag); thorough = full alphabet to depth 5 on six IRQ triples plus the core alphabet to depth 6.",
+    "C06": "Added later: paused timers, long-horizon family (x40), conditional self-branches, full audio queues, start registers rewritten without a restart (by the host or by the handler), the second audio port (no listener).",
+    "C07": "Added later: whole-word status writes, Run(3), a one-shot timer source, vector registers reprogrammed at run time (second handler address, context flag); thorough = full alphabet to depth 5 on six IRQ triples plus the core alphabet to depth 6; routing histories (an IRQ routed to two destinations, one rewritten, IRQ raised without a state restore in between).",
     "C08": "Added later: two simultaneous requests, a handler that changes the flags, conditional returns, clobbered product.",
     "C09": "Added later: counts from every Register operand, frames stored/restored through every pointer, loops abandoned by icr/stt2 writes, icr writes (loop bit clear) as loop bodies.",
     "C10": "Added later: generic layers over every opcode that names an address register (steps as configured, with modulo on at both buffer ends, with end-pointer mode; bit-reversed access address), two-instruction sequences, configuration instructions followed by a step.",
